@@ -10,6 +10,9 @@ package cons
 import (
 	"fmt"
 	"reflect"
+	"regexp"
+	"runtime/debug"
+	"time"
 
 	"github.com/NethermindEth/juno/consensus/starknet"
 	"github.com/NethermindEth/juno/consensus/tendermint"
@@ -228,22 +231,80 @@ func MkTimeout(in In) types.Timeout {
 
 // Apply feeds one input to the real machine and returns the real actions.
 func (m *Machine) Apply(in In) []Action {
+	acts, _ := m.ApplyKeep(in)
+	return acts
+}
+
+// ApplyKeep also returns the message object that was handed to the machine (nil for start/timeout), so
+// that the caller can check later that the machine did not modify it (InOf).
+func (m *Machine) ApplyKeep(in In) ([]Action, any) {
 	switch in.T {
 	case "start":
-		return m.SM.ProcessStart(0)
+		return m.SM.ProcessStart(0), nil
 	case "timeout":
-		return m.SM.ProcessTimeout(MkTimeout(in))
+		return m.SM.ProcessTimeout(MkTimeout(in)), nil
 	case "msg":
 		switch in.K {
 		case "proposal":
-			return m.SM.ProcessProposal(MkProposal(in))
+			p := MkProposal(in)
+			return m.SM.ProcessProposal(p), p
 		case "prevote":
-			return m.SM.ProcessPrevote(MkPrevote(in))
+			p := MkPrevote(in)
+			return m.SM.ProcessPrevote(p), p
 		case "precommit":
-			return m.SM.ProcessPrecommit(MkPrecommit(in))
+			p := MkPrecommit(in)
+			return m.SM.ProcessPrecommit(p), p
 		}
 	}
 	panic(fmt.Sprintf("cons: bad input %+v", in))
+}
+
+// InOf projects a message object back into the model's input record.
+func InOf(msg any) In {
+	switch p := msg.(type) {
+	case *starknet.Proposal:
+		return In{T: "msg", K: "proposal", H: int(p.Height), R: int(p.Round), S: AddrID(p.Sender), V: ValID(p.Value), VR: int(p.ValidRound)}
+	case *starknet.Prevote:
+		return In{T: "msg", K: "prevote", H: int(p.Height), R: int(p.Round), S: AddrID(p.Sender), V: HashID(p.ID), VR: -1}
+	case *starknet.Precommit:
+		return In{T: "msg", K: "precommit", H: int(p.Height), R: int(p.Round), S: AddrID(p.Sender), V: HashID(p.ID), VR: -1}
+	}
+	return In{}
+}
+
+// Guarded runs one call into the real code under recover and a watchdog: a panic or a hang of the
+// real code is reported to the caller (who turns it into a keyed divergence) instead of killing or
+// blocking the engine. (A hung call keeps its goroutine; the engine finishes without it.)
+func Guarded[T any](d time.Duration, f func() T) (res T, panicMsg string, hung bool) {
+	type r struct {
+		v T
+		p string
+	}
+	ch := make(chan r, 1)
+	go func() {
+		defer func() {
+			if x := recover(); x != nil {
+				ch <- r{p: fmt.Sprintf("%v\n%s", x, debug.Stack())}
+			}
+		}()
+		ch <- r{v: f()}
+	}()
+	select {
+	case x := <-ch:
+		return x.v, x.p, false
+	case <-time.After(d):
+		return res, "", true
+	}
+}
+
+var junoFrame = regexp.MustCompile(`github.com/NethermindEth/juno/[^\s(]+`)
+
+// CrashSite names the first juno function on a recovered panic's stack.
+func CrashSite(msg string) string {
+	if m := junoFrame.FindString(msg); m != "" {
+		return m
+	}
+	return "unknown"
 }
 
 // WalAct projects a WAL entry (as it would be encoded NOW) into the model's wal_* action.
